@@ -27,7 +27,7 @@ RULE = (
     "objects; decompile the SAME op objects again; call convert() twice on the same decompiler; SsbScript-decompile the "
     "same op objects after the ExplorerScript decompiler used them; a sweep that decompiles every nested-loop input and then every empty-case-switch input of the pool; gc.collect(). Model: the result of every input "
     "(ops, offsets, routine table, text, serialized source maps, or the exception type and message) computed in a FRESH "
-    "interpreter process per input. Invariant after every step: the in-process result is byte-identical to the model's, "
+    "interpreter process per input (started with a different string-hash seed than the checking process). Invariant after every step: the in-process result is byte-identical to the model's, "
     "and the caller's op objects still denote the same routine set. Non-trivial = history of >= 3 steps in which an "
     "input is repeated after a different one, or a call follows a raising call; distinct by hash of (pool, steps)."
 )
@@ -52,7 +52,10 @@ def fresh_reference(item) -> dict:
     """Reference result from a fresh interpreter process (cached per content within this worker)."""
     k = item_key(item)
     if k not in _MODEL_CACHE:
-        env = dict(os.environ, PYTHONPATH=str(REPO) + os.pathsep + str(VERIF), PYTHONHASHSEED="0", VERIF_REPO=str(REPO))
+        # the fresh interpreter runs with ANOTHER string-hash seed than this process (which runs with 0): a result that
+        # depends on the iteration order of a set of strings differs between processes in real life; the seed is a
+        # function of the input, so the run stays reproducible
+        env = dict(os.environ, PYTHONPATH=str(REPO) + os.pathsep + str(VERIF), PYTHONHASHSEED=str(1 + int(k[:6], 16) % 9), VERIF_REPO=str(REPO))
         p = subprocess.run([sys.executable, "-m", "vf.fresh"], input=json.dumps([item]), capture_output=True, text=True, env=env, cwd=str(VERIF), timeout=600)
         if p.returncode != 0:
             raise RuntimeError("fresh worker failed: " + p.stderr[-500:])
